@@ -21,16 +21,22 @@
 (***************************************************************************)
 EXTENDS Integers, Sequences, FiniteSets, TLC
 
-CONSTANTS NE, K, AsyncSet, MaxOut, HoldRefs
+CONSTANTS NE, K, AsyncSet, MaxOut, HoldRefs,
+          Faults,       \* TRUE: a consumer's awaitable may raise
+          FirstSync     \* consumers (a sink around a batching writer, say) whose first call returns nothing and whose later
+                        \* calls return an awaitable: whether a delivery must be waited for is decided per call
 
-VARIABLES called, busy, emitDone, delivered, rc, fired
-vars == <<called, busy, emitDone, delivered, rc, fired>>
+VARIABLES called, busy, emitDone, delivered, rc, fired,
+          failedC   \* <<e, c>>: the awaitable of consumer c for element e raised
+vars == <<called, busy, emitDone, delivered, rc, fired, failedC>>
+failedE == {p[1] : p \in failedC}
 Elems == 1 .. NE
 Cons == 1 .. K
 Async == AsyncSet \cap Cons
+AsyncFor(e) == Async \ (IF e = 1 THEN FirstSync ELSE {})
 
 Init == /\ called = 0 /\ busy = {} /\ emitDone = [e \in Elems |-> FALSE] /\ delivered = <<>>
-        /\ rc = [e \in Elems |-> 0] /\ fired = <<>>
+        /\ rc = [e \in Elems |-> 0] /\ fired = <<>> /\ failedC = {}
 
 Outstanding == Cardinality({e \in 1 .. called : ~emitDone[e]})
 
@@ -38,11 +44,24 @@ EmitCall(e) ==
     /\ e = called + 1 /\ e <= NE /\ Outstanding < MaxOut
     /\ called' = e
     /\ delivered' = delivered \o [c \in 1 .. K |-> <<e, c>>]
-    /\ busy' = busy \cup {<<e, c>> : c \in Async}
-    /\ IF HoldRefs /\ Async # {}
-       THEN rc' = [rc EXCEPT ![e] = Cardinality(Async)] /\ UNCHANGED fired
+    /\ busy' = busy \cup {<<e, c>> : c \in AsyncFor(e)}
+    /\ IF HoldRefs /\ AsyncFor(e) # {}
+       THEN rc' = [rc EXCEPT ![e] = Cardinality(AsyncFor(e))] /\ UNCHANGED fired
        ELSE rc' = rc /\ fired' = Append(fired, e)
-    /\ UNCHANGED emitDone
+    /\ UNCHANGED <<emitDone, failedC>>
+
+\* the awaitable of consumer c for element e raises: the emitter gets the exception (once every awaitable of that emit has
+\* finished); with HoldRefs the reference is not released (the element is never reported as done)
+ConsumerFail(e, c) ==
+    /\ Faults /\ <<e, c>> \in busy
+    /\ busy' = busy \ {<<e, c>>} /\ failedC' = failedC \cup {<<e, c>>}
+    /\ UNCHANGED <<called, emitDone, delivered, rc, fired>>
+
+EmitRaised(e) ==
+    /\ e <= called /\ ~emitDone[e] /\ e \in failedE
+    /\ \A c \in Cons : <<e, c>> \notin busy
+    /\ emitDone' = [emitDone EXCEPT ![e] = TRUE]
+    /\ UNCHANGED <<called, busy, delivered, rc, fired, failedC>>
 
 ConsumerDone(e, c) ==
     /\ <<e, c>> \in busy
@@ -50,17 +69,17 @@ ConsumerDone(e, c) ==
     /\ IF HoldRefs THEN /\ rc' = [rc EXCEPT ![e] = @ - 1]
                         /\ fired' = IF rc[e] - 1 <= 0 THEN Append(fired, e) ELSE fired
        ELSE UNCHANGED <<rc, fired>>
-    /\ UNCHANGED <<called, emitDone, delivered>>
+    /\ UNCHANGED <<called, emitDone, delivered, failedC>>
 
 EmitDone(e) ==
-    /\ e <= called /\ ~emitDone[e]
+    /\ e <= called /\ ~emitDone[e] /\ e \notin failedE
     /\ \A c \in Cons : <<e, c>> \notin busy
     /\ emitDone' = [emitDone EXCEPT ![e] = TRUE]
-    /\ UNCHANGED <<called, busy, delivered, rc, fired>>
+    /\ UNCHANGED <<called, busy, delivered, rc, fired, failedC>>
 
-Next == \E e \in Elems : EmitCall(e) \/ EmitDone(e) \/ \E c \in Cons : ConsumerDone(e, c)
+Next == \E e \in Elems : EmitCall(e) \/ EmitDone(e) \/ EmitRaised(e) \/ \E c \in Cons : ConsumerDone(e, c) \/ ConsumerFail(e, c)
 Spec == Init /\ [][Next]_vars
-FairSpec == Spec /\ \A e \in Elems : WF_vars(EmitDone(e)) /\ \A c \in Cons : WF_vars(ConsumerDone(e, c))
+FairSpec == Spec /\ \A e \in Elems : WF_vars(EmitDone(e)) /\ WF_vars(EmitRaised(e)) /\ \A c \in Cons : WF_vars(ConsumerDone(e, c) \/ ConsumerFail(e, c))
 
 ----------------------------------------------------------------------------
 \* C03: the emit awaitable does not complete before every directly reachable consumer has finished
@@ -72,7 +91,7 @@ FanOutOrder == delivered = [i \in 1 .. (called * K) |-> <<((i - 1) \div K) + 1, 
 \* C04
 CbSafe == \A i \in 1 .. Len(fired) : \A c \in Cons : <<fired[i], c>> \notin busy
 RcBalance == /\ \A e \in Elems : rc[e] >= 0
-             /\ \A e \in Elems : rc[e] = (IF HoldRefs THEN Cardinality({c \in Cons : <<e, c>> \in busy}) ELSE 0)
+             /\ \A e \in Elems : rc[e] = (IF HoldRefs THEN Cardinality({c \in Cons : <<e, c>> \in busy \/ <<e, c>> \in failedC}) ELSE 0)
              /\ \A e \in Elems : Cardinality({i \in 1 .. Len(fired) : fired[i] = e}) <= 1
-             /\ \A e \in 1 .. called : (\A c \in Cons : <<e, c>> \notin busy) => \E i \in 1 .. Len(fired) : fired[i] = e
+             /\ \A e \in 1 .. called : ((\A c \in Cons : <<e, c>> \notin busy) /\ (~HoldRefs \/ e \notin failedE)) => \E i \in 1 .. Len(fired) : fired[i] = e
 =============================================================================
